@@ -46,7 +46,20 @@ def c14(tier):
     if lib.CRASHED and not races:
         raise Inconclusive("conc harness failed without a race report: %s" % lib.CRASHED[0][2][-1500:])
     got = 0
+    mixed = 0
+    cancel_rounds = abandoned = 0
     for x in recs:
+        if "mixed" in x:
+            mixed += 1
+            ck.evaluations += x["requests"]
+            continue
+        if "cancel_round" in x:
+            cancel_rounds += 1
+            abandoned += x["abandoned"]
+            ck.evaluations += x["requests"]
+            for d in x["diffs"] or []:
+                ck.violation("a request answered differently from the same request run alone, %s" % d.get("phase", ""), dict(d, round=x["cancel_round"]))
+            continue
         got += 1
         ck.evaluations += x["requests"]
         for d in x["diffs"] or []:
@@ -59,10 +72,17 @@ def c14(tier):
     if got < rounds and not races:
         raise Inconclusive("only %d of %d rounds ran" % (got, rounds))
     ck.sample({"round": 0, "requests": par, "kinds": ["rest_check", "rest_batch", "rest_expand", "rest_list", "grpc_check", "grpc_list"]})
+    if mixed < rounds // 2 and not races:
+        raise Inconclusive("only %d of %d mixed read/write rounds ran" % (mixed, rounds // 2))
     ck.extra["rounds"] = got
+    ck.extra["mixed_read_write_rounds"] = mixed
+    ck.extra["rounds_with_abandoned_requests"] = cancel_rounds
+    ck.extra["requests_that_failed_because_their_client_gave_up"] = abandoned
+    if cancel_rounds < rounds // 3 and not races:
+        raise Inconclusive("only %d of %d rounds with abandoned requests ran" % (cancel_rounds, rounds // 3))
     ck.extra["race_reports"] = len(races)
     ck.rule = ("%d rounds of %d requests (check, batch check, expand, list over REST and gRPC) released by a barrier against a registry that has served nothing yet, in a binary built "
-               "with -race; each reply is compared with the same request run alone, the visited sets recorded through hook H1 are compared as multisets; non-trivial: rounds in which checks expanded subject sets" % (rounds, par))
+               "with -race; every second round is followed by a round on a fresh registry in which a third of the requests are writes (REST put / patch / delete, gRPC transact; race detector and crashes only); every third round additionally runs on a fresh registry with half of the clients giving up after 0.15..3.6 ms next to requests that run to completion, followed by a sequential pass, both compared with answers computed before any request was abandoned; each reply of the read-only rounds is compared with the same request run alone, the visited sets recorded through hook H1 are compared as multisets; non-trivial: rounds in which checks expanded subject sets" % (rounds, par))
     ck.assumptions = ["data-race freedom is observed with Go's race detector on the spec-generated workload, not derived from the TLA+ model",
                       "sqlite in-memory backend only"]
     ck.finish()
